@@ -234,6 +234,46 @@ func VerifC06_CascadeFromSeveralStores() {
 	verifC04CascadeSeveral(vStoreCfg{fk: []int{vFkIndexCascade, vFkConstraintCascade}[verifrt.Choose("wiring", 2)]})
 }
 
+// VerifC06_DeleteInTheTransactionThatLinked: the victim is linked (and
+// ref-count-linked) to four adjacent depts and deleted in the SAME transaction
+// (its link buckets are live nodes while the delete walks them): no dept keeps it.
+func VerifC06_DeleteInTheTransactionThatLinked() {
+	cfg := vStoreCfg{nickNullable: true, links: true}
+	env := verifNewEnv(cfg)
+	defer env.close()
+	depts := []string{"d1", "d2", "d3", "d4"}
+	env.createDepts(depts...)
+	env.createEmps(vVictim)
+	var linked []string
+	for _, d := range depts {
+		if verifrt.Bool("linked") {
+			linked = append(linked, d)
+		}
+	}
+	viaOther := verifrt.Bool("linked.from.dept.side")
+	err := env.update(func(ctx MutateContext) error {
+		for _, d := range linked {
+			var err error
+			if viaOther {
+				err = env.dept.members.AddLinks(ctx.Tx(), d, vVictim)
+			} else {
+				err = env.emp.depts.AddLinks(ctx.Tx(), vVictim, d)
+			}
+			if err != nil {
+				return err
+			}
+			if _, err = env.emp.rcDepts.IncrementLinkCount(ctx.Tx(), []byte(vVictim), []byte(d)); err != nil {
+				return err
+			}
+		}
+		return env.emp.DeleteById(ctx, vVictim)
+	})
+	verifrt.Assert(err == nil, "C06 link and delete in one transaction succeeds")
+	env.view(func(tx *bbolt.Tx) {
+		verifrt.Assert(!verifScanForId(tx, vVictim), "C06 deleted in the transaction that linked it, the id occurs nowhere")
+	})
+}
+
 // VerifC06_DeleteWhere: DeleteWhere removes exactly the entities matching the
 // filter, each without a trace, and leaves the others intact.
 func VerifC06_DeleteWhere() {
